@@ -30,6 +30,10 @@ pub fn install_hook() {
                 .location()
                 .map(|l| format!("{}:{}", l.file(), l.line()))
                 .unwrap_or_else(|| "<unknown>".into());
+            // (a process that is going to die of a panic inside a destructor tells its parent what came first)
+            if std::env::var_os("VERIF_PANIC_ECHO").is_some() && !msg.contains("VERIF-ABORT") {
+                eprintln!("VERIF-PANIC: {} at {}", msg.chars().take(300).collect::<String>(), loc);
+            }
             let captured = CAPTURE
                 .try_with(|c| {
                     if let Some(v) = c.borrow_mut().as_mut() {
